@@ -59,7 +59,21 @@ def eval_raw(x, env=None, summ=None, depth=0):
             return inner
         return _clip(inner, tr)
     if k == 'cond':
-        return _hull(eval_raw(x['x'], env, summ, depth + 1), eval_raw(x['y'], env, summ, depth + 1))
+        xr = eval_raw(x['x'], env, summ, depth + 1)
+        yr = eval_raw(x['y'], env, summ, depth + 1)
+        # min / max idiom: (a < b ? a : b), (a > b ? a : b)
+        c = strip(x['c'])
+        if isinstance(c, dict) and c.get('k') == 'bin' and c.get('op') in ('<', '<=', '>', '>='):
+            from .prog import key as _key
+            kl, kr, kx, ky = _key(c['l']), _key(c['r']), _key(x['x']), _key(x['y'])
+            if (kl, kr) == (kx, ky) or (kl, kr) == (ky, kx):
+                less_first = c['op'] in ('<', '<=')
+                picks_left = (kl, kr) == (kx, ky)
+                is_min = less_first == picks_left
+                if is_min:
+                    return (min(xr[0], yr[0]), min(xr[1], yr[1]))
+                return (max(xr[0], yr[0]), max(xr[1], yr[1]))
+        return _hull(xr, yr)
     if k == 'un':
         op = x.get('op')
         e = eval_raw(x['e'], env, summ, depth + 1)
